@@ -109,6 +109,25 @@ theorem encoderN_chain (n : Nat) (lsb : Bool) (ins : List (Bool × List Sym))
 example : enabledGroups [(true, [⟨3, false⟩, ⟨0xBC, true⟩]), (false, []), (true, [⟨5, false⟩, ⟨6, false⟩])] =
     [] ++ [[⟨3, false⟩, ⟨0xBC, true⟩], [⟨5, false⟩, ⟨6, false⟩]] := by decide
 
+/-- `Decoder(lsb_first)` for every `ce` pattern: its outputs are the decoding of the last word presented at an
+    enabled edge, held across any number of disabled cycles; if that word is the encoder's output for a valid
+    symbol (same bit order, either disparity) the outputs are that symbol with `invalid = 0`. -/
+theorem decoder_ce_roundtrip (lsb : Bool) (ins : List (Bool × Nat)) (s : Sym) (hs : s.Valid) (disp : Bool)
+    (h : lastEnabled ins = some (fmt lsb (encode1 s.d s.k disp).1)) (i : Bool × Nat) :
+    (decoder lsb).out ((decoder lsb).run ins) i = (s.d, s.k, false) := by
+  have hr : (decoder lsb).run ins = decStep lsb (fmt lsb (encode1 s.d s.k disp).1) := by
+    have := decoder_runFrom lsb ins (decoder lsb).init
+    rw [h] at this
+    exact this
+  rw [hr]
+  cases lsb
+  · have hw := fin_word_lt s.d hs.1 s.k disp
+    simp only [decoder, decStep, fmt, Bool.false_eq_true, ite_false, Nat.mod_eq_of_lt hw]
+    exact fin_roundtrip s.d hs.1 s.k disp hs
+  · exact fin_roundtrip_lsb s.d hs.1 s.k disp hs
+
+example : lastEnabled [(true, 5), (true, 0b0011111010), (false, 7), (false, 9)] = some 0b0011111010 := by decide
+
 /-! ## Stream wrappers, every valid/ready schedule -/
 
 /-- `StreamDecoder(n)`: the accepted words, decoded, are the delivered tokens followed by the one in the output
